@@ -83,6 +83,29 @@ def search(seed=0, windows=40):
                         return n, f"Treg softened a CRITICAL response: {act.name} -> {sr.modified_action.name}"
                     if order.index(sr.modified_action) not in (order.index(act), order.index(act) - 1):
                         return n, f"Treg changed {act.name} to {sr.modified_action.name} (more than one step / upwards) for {tl.name}"
+    # a remembered threat is a second signal for THE AGENT IT WAS REMEMBERED FOR only: two agents with the same words and structure, one confirmed
+    n += 1
+    with contextlib.redirect_stdout(io.StringIO()):
+        s2 = ImmuneSystem(min_training_samples=10, min_observations=10, window_size=10)
+        for ag in ("alpha", "beta"):
+            s2.register_agent(ag)
+            for _ in range(10):
+                s2.record_observation(ag, "the quick brown fox", response_time=0.1, confidence=0.9)
+            s2.train_agent(ag)
+            s2.inspect(ag)
+        s2.flag_agent("alpha", "operator report")
+        for _ in range(10):
+            s2.record_observation("alpha", "the quick brown fox", response_time=5.0, confidence=0.9)
+        ra = s2.inspect("alpha")
+        for _ in range(10):
+            s2.record_observation("beta", "the quick brown fox", response_time=5.0, confidence=0.9)
+        bc = s2.tcells["beta"]
+        own_second = bool(bc.manual_flag or s2.displays["beta"].canary_results or bc.anomaly_count + 1 >= bc.repeated_anomaly_threshold
+                          or [x for x in s2.memory.signatures if x.agent_id == "beta"])
+        rb = s2.inspect("beta")
+    if ra.threat_level in (ThreatLevel.CONFIRMED, ThreatLevel.CRITICAL) and rb.threat_level in (ThreatLevel.CONFIRMED, ThreatLevel.CRITICAL) and not own_second:
+        return n, (f"agent beta is reported {rb.threat_level.name}/{rb.action.name} on a single anomaly with no second signal of its own "
+                   f"(a threat remembered for agent alpha was used: {rb.violations[:1]})")
     # self-tolerance after training + memory path after return to baseline
     for w in range(windows):
         n += 1
